@@ -59,6 +59,13 @@ use wait::WaitSlot;
 
 pub(crate) use cursor::PublishedCursorReader;
 
+/// In-crate component drivers of the verification harness (cursors, wait slot, dependency graph):
+/// they call the production types of this module directly; compiled only with `--cfg grevm_verif`.
+#[cfg(grevm_verif)]
+pub mod verif_drivers {
+    include!(concat!(env!("GREVM_VERIF_DIR"), "/inside/sched_drivers.rs"));
+}
+
 const STALL_TIMEOUT: Duration = Duration::from_secs(8);
 
 struct CommitLoopResult<DBError> {
